@@ -9,6 +9,8 @@ use bumpalo::Bump;
 pub struct Shared {
     json: Vec<u8>,
     alloc: Bump,
+    #[cfg(feature = "verif_hooks")]
+    pub(crate) token: crate::verif::ArenaToken,
 }
 
 impl Shared {
